@@ -1073,6 +1073,102 @@ def part_files(chk, runner):
     pp["pages_distribution"] = sorted(set(inp["npages"] for inp in inputs if inp["npages"]))
 
 
+def part_qdf(chk, runner):
+    """--qdf together with --linearize, in both orders: the manual (cli.rst, --qdf) says "--linearize disables QDF mode", so the output has to be an
+    ordinary linearized file. Known to fail on the pinned tree (C07-QDF-LINEARIZE); re-observed on every run."""
+    wd = os.path.join(common.workdir("C07"), "qdf")
+    os.makedirs(wd, exist_ok=True)
+    docs = [("pair", pair_doc("pages-only", "none")), ("pd", pdfgen.page_doc(3, marker="Q", kids_levels=2))]
+    cases = []
+    for nm_, d in docs:
+        p = os.path.join(wd, nm_ + ".pdf")
+        open(p, "wb").write(pdfgen.write_classic(d)[0])
+        for order in (["--linearize", "--qdf"], ["--qdf", "--linearize"]):
+            for o in ("disable", "generate"):
+                cases.append((p, order + ["--object-streams=" + o], os.path.join(wd, "qdf-out%d.pdf" % len(cases))))
+    res = common.par_map(lambda c: common.run_qpdf(["--static-id"] + c[1] + [c[0], c[2]]), cases, workers=4)
+    good = [c for c, r in zip(cases, res) if r[0] == 0 and os.path.exists(c[2])]
+    reps = dict(zip([c[2] for c in good], lin_read([c[2] for c in good])))
+    for c, (rc, so, se) in zip(cases, res):
+        case = {"input": c[0], "input_kind": "generated", "argv": ["qpdf", "--static-id"] + c[1] + [c[0], c[2]], "qpdf_exit": rc}
+        if rc != 0:
+            chk.violation(dict(case, kind="property-fails-on-implementation", part="qdf-and-linearize", why="--linearize with --qdf does not write a file (the manual: --linearize disables QDF mode)",
+                               stderr=se.decode("latin-1")[-300:], output_size=os.path.getsize(c[2]) if os.path.exists(c[2]) else None), signature="lin:qdf-and-linearize")
+            continue
+        errs = [e for e in reps[c[2]]["errors"] if signature_of(e, reps[c[2]], b"/Type /XRef" in open(c[2], "rb").read()) != "lin:T-xref-stream-minus-1"]
+        if errs:
+            chk.violation(dict(case, kind="property-fails-on-implementation", part="qdf-and-linearize", why="the file written with --qdf --linearize is not a valid linearized file: " + CLAUSE.get(errs[0][0], "?"),
+                               clause=errs[0][0], measured_or_expected=errs[0][1], stated_or_found=errs[0][2]), signature="lin:qdf-and-linearize")
+    chk.count("qdf-and-linearize", len(cases), set((os.path.basename(c[0]), " ".join(c[1])) for c in cases))
+
+
+API_OPS = ["check", "islin", "pages", "push", "wplain", "wlind", "wling"]
+
+
+def part_api(chk, drv, runner):
+    """public-API histories on one QPDF object that end in a linearized write (drv_lin.cc: linapi). Inputs: generated documents, their
+    CLI-linearized forms (with and without object streams) and linearized files of other producers from the repository corpus (indirect /Length).
+    The output of every history must satisfy the same clauses as a CLI output. Histories in which checkLinearization() or an earlier linearized
+    write has filled the object-user maps are known to fail (C07-API-STALE-USER-MAPS): they are run and reported under that signature."""
+    rng = chk.rng
+    quick = chk.tier == "quick"
+    wd = os.path.join(common.workdir("C07"), "api")
+    os.makedirs(wd, exist_ok=True)
+    base = [("pair", pair_doc("outline-dest", "use")), ("inh", inh_doc(rng, 2, {0: {b"MediaBox": "direct", b"CropBox": "indirect"}, 1: {b"Rotate": "direct", b"Resources": "indirect"}}, npages=5)),
+            ("pd", pdfgen.page_doc(4, marker="A", kids_levels=2, rotate={1: 90}))]
+    inputs = []
+    for nm_, d in base:
+        p = os.path.join(wd, nm_ + ".pdf")
+        open(p, "wb").write(pdfgen.write_classic(d)[0])
+        inputs.append((nm_, p, False))
+        for o in ("disable", "generate"):
+            lp = os.path.join(wd, "%s-lin-%s.pdf" % (nm_, o))
+            rc, so, se = common.run_qpdf(["--static-id", "--linearize", "--object-streams=" + o, p, lp])
+            if rc == 0:
+                inputs.append(("%s-lin-%s" % (nm_, o), lp, True))
+    for f in ["lin1.pdf", "lin3.pdf", "lin5.pdf"] + ([] if quick else ["lin0.pdf", "lin2.pdf", "lin4.pdf", "lin6.pdf", "lin7.pdf", "lin8.pdf", "lin9.pdf", "lin-special.pdf"]):
+        pth = os.path.join(filecheck.CORPUS_DIR, f)
+        if os.path.exists(pth) and os.path.getsize(pth) <= 60000:
+            inputs.append((f, pth, True))
+    seqs = [[], ["pages"], ["push"], ["islin"], ["wplain"], ["islin", "pages", "push", "wplain"], ["check"], ["wlind"], ["wling"], ["check", "wplain"], ["wlind", "check"]]
+    for _ in range(4 if quick else 60):
+        seqs.append([rng.choice(API_OPS) for _ in range(rng.choice([1, 2, 3, 5]))])
+    cases = []
+    for si, ops in enumerate(seqs):
+        use = inputs if not quick else [inputs[(si * 3 + j) % len(inputs)] for j in range(3)]
+        for nm_, pth, is_lin in use:
+            mode = "dgp"[(si + len(cases)) % 3]
+            cases.append((nm_, pth, is_lin, ops, mode, os.path.join(wd, "api-out%d.pdf" % len(cases))))
+    outs = common.run_lines(drv, ["linapi %s %s %s %s" % (c[1], c[5], ",".join(c[3]) or "-", c[4]) for c in cases], shards=4)
+    ok = [(c, o) for c, o in zip(cases, outs) if o == "ok" and os.path.exists(c[5]) and os.path.getsize(c[5]) <= MAXSIZE]
+    reps = lin_read([c[5] for c, _ in ok])
+    qres = common.par_map(lambda c: common.run_qpdf(["--check-linearization", c[0][5]]), ok, workers=4)
+    repmap = {c[5]: (rep, q) for (c, _), rep, q in zip(ok, reps, qres)}
+    nontriv = set()
+    for c, o in zip(cases, outs):
+        nm_, pth, is_lin, ops, mode, out = c
+        # the object-user maps of the QPDF object are already filled when the final write starts
+        stale = any(x in ("wlind", "wling") for x in ops) or ("check" in ops and is_lin)
+        case = {"input": pth, "input_kind": "api-history", "api_calls_before_the_linearized_write": ops, "object_streams_of_the_final_write": {"d": "disable", "g": "generate", "p": "preserve"}[mode],
+                "replay_with": "_build/drv/drv <<< 'linapi %s OUT %s %s'" % (pth, ",".join(ops) or "-", mode)}
+        if o != "ok":
+            chk.violation(dict(case, kind="property-fails-on-implementation", part="api-sequences", why="the linearized write after these calls throws", result=o[:300]),
+                          signature="lin:api:stale-user-maps" if stale else "lin:api:exception")
+            continue
+        if out not in repmap:
+            continue
+        nontriv.add((nm_, tuple(ops), mode))
+        rep, (c_rc, c_so, c_se) = repmap[out]
+        data = open(out, "rb").read()
+        for e in rep["errors"]:
+            chk.violation(dict(case, kind="property-fails-on-implementation", part="api-sequences", clause=e[0], why=CLAUSE.get(e[0], "clause %s" % e[0]), measured_or_expected=e[1], stated_or_found=e[2],
+                               raw=rep.get("raw")), signature="lin:api:stale-user-maps" if stale else signature_of(e, rep, b"/Type /XRef" in data))
+        if c_rc != 0 or b"no linearization errors" not in c_so or b"WARNING" in c_se:
+            chk.violation(dict(case, kind="property-fails-on-implementation", part="api-sequences", why="qpdf --check-linearization does not accept the file silently",
+                               check_exit=c_rc, stderr=c_se.decode("latin-1")[-300:]), signature="lin:api:stale-user-maps" if stale else "lin:api:check-linearization")
+    chk.count("api-sequences", len(cases), nontriv, samples=[{"input": os.path.basename(c[1]), "calls": c[3], "mode": c[4]} for c in cases[6:8]])
+
+
 def run(chk):
     drv = os.path.join(common.DRV, "drv")
     runner = os.path.join(common.EXTRACT, "model_runner")
@@ -1085,6 +1181,8 @@ def run(chk):
                        "bitio: random writeBits/flush and getBits sequences (widths 0..40, values beyond the width) on the real BitWriter/BitStream, the model and the Annex F field reader")
     part_bitio(chk, drv, runner)
     part_files(chk, runner)
+    part_qdf(chk, runner)
+    part_api(chk, drv, runner)
 
 
 def replay(chk, rep):
